@@ -460,3 +460,65 @@ Proof.
   destruct a as [|n|n m e]; [reflexivity|cbn; destruct n; reflexivity|].
   rewrite fgt_fin. apply Z.ltb_irrefl.
 Qed.
+
+(* ------------------------------------------------------------------ values without a data address *)
+Lemma value_convert_a_addr p sk v tk hd : value_convert_a p sk (Some v) tk hd = value_convert sk v tk hd.
+Proof. reflexivity. Qed.
+
+Lemma null_copy_faults_patched sk tk ok hd : null_copy_faults true sk tk ok hd = false.
+Proof. unfold null_copy_faults. destruct hd; reflexivity. Qed.
+Lemma null_copy_faults_query p sk tk ok : null_copy_faults p sk tk ok false = false.
+Proof. reflexivity. Qed.
+Lemma null_copy_faults_inv p sk tk ok hd : null_copy_faults p sk tk ok hd = true ->
+  p = false /\ hd = true /\ ok = false /\ sk = tk.
+Proof.
+  unfold null_copy_faults. destruct hd; [|discriminate]. destruct p; [discriminate|]. cbn [andb negb].
+  destruct (value_convert_c sk tk ok false) as [e|r|n| |l|] eqn:V; try discriminate.
+  intros _. destruct (value_convert_c_copy _ _ _ _ _ V) as (E & _).
+  repeat split; try assumption.
+  unfold value_convert_c in V. destruct (tk =? 0); [discriminate|]. destruct ok; [discriminate|reflexivity].
+Qed.
+
+(* as patched, a value without address IS the value 0 of its type: every theorem about
+   [value_convert] / [iterator_consume] speaks about it *)
+Lemma value_convert_a_null_patched sk tk hd : value_convert_a true sk None tk hd = value_convert sk 0 tk hd.
+Proof. unfold value_convert_a. rewrite null_copy_faults_patched. reflexivity. Qed.
+
+(* patched or not, asking without a destination never touches the address *)
+Lemma value_convert_a_null_query p sk tk : value_convert_a p sk None tk false = value_convert sk 0 tk false.
+Proof. reflexivity. Qed.
+
+(* patched or not, the only thing a missing address can change is a fault of the raw copy of the
+   value's own type, with a destination, after the converter refused *)
+Lemma value_convert_a_null_cases p sk tk hd :
+  value_convert_a p sk None tk hd = value_convert sk 0 tk hd \/
+  (value_convert_a p sk None tk hd = CFault /\ p = false /\ hd = true /\ sk = tk /\ int_conv_ok sk 0 tk hd = false).
+Proof.
+  unfold value_convert_a.
+  destruct (null_copy_faults p sk tk (int_conv_ok sk 0 tk hd) hd) eqn:N; [right|left; reflexivity].
+  destruct (null_copy_faults_inv _ _ _ _ _ N) as (-> & -> & OK & ->). repeat split; assumption.
+Qed.
+
+Lemma iterator_consume_a_addr p sk v tk hd : iterator_consume_a p sk (Some v) tk hd = iterator_consume sk v tk hd.
+Proof. reflexivity. Qed.
+Lemma iterator_consume_a_null_patched sk tk hd : iterator_consume_a true sk None tk hd = iterator_consume sk 0 tk hd.
+Proof. unfold iterator_consume_a, iterator_consume. rewrite value_convert_a_null_patched. reflexivity. Qed.
+Lemma iterator_consume_a_null_query p sk tk : iterator_consume_a p sk None tk false = iterator_consume sk 0 tk false.
+Proof. reflexivity. Qed.
+
+(* floating sources: the converter accepts the value's own type for every bit pattern, the raw copy
+   is never reached: a float / double / long double value without address is 0.0, patched or not *)
+Lemma value_convert_flt_a_null p src tk hd : flt_src src ->
+  value_convert_flt_a p src None tk hd = value_convert_flt src 0 tk hd.
+Proof.
+  intros FS. unfold value_convert_flt_a. cbv zeta.
+  match goal with |- (if ?b then _ else _) = _ => destruct b eqn:N end; [|reflexivity].
+  destruct (null_copy_faults_inv _ _ _ _ _ N) as (_ & -> & OK & <-).
+  destruct (fconv_own_type src 0 true FS) as (b & E). rewrite E in OK. discriminate.
+Qed.
+Lemma value_convert_flt_a_never_faults p src from tk hd : flt_src src -> value_convert_flt_a p src from tk hd <> FFault.
+Proof.
+  intros FS. destruct from as [bits|].
+  - apply value_convert_flt_never_faults; assumption.
+  - rewrite value_convert_flt_a_null by assumption. apply value_convert_flt_never_faults; assumption.
+Qed.
